@@ -166,6 +166,19 @@ def errors_stream(ctx, n):
     for k in range(n):
         dim = rng.choice([2, 3])
         pts = [[rng.randint(-4, 4) for _ in range(dim)] + [1] for _ in range(4)]
+        if k % 3 == 0:
+            # exactly one point off the common line of the other three (every position, also the last one)
+            a = np.array([rng.randint(-3, 3) for _ in range(dim)] + [1])
+            d = np.array([rng.randint(-2, 2) for _ in range(dim)] + [0])
+            if not d.any():
+                continue
+            ts = rng.sample([-2, -1, 0, 1, 2, 3], 4)
+            pts = [(a + t * d).tolist() for t in ts]
+            off = rng.randrange(4)
+            e = [0] * (dim + 1)
+            e[rng.choice([i for i in range(dim) if True])] = rng.choice([1, -1, 2])
+            cand = (np.array(pts[off]) + np.array(e)).tolist()
+            pts[off] = cand
         if np.linalg.matrix_rank(np.array(pts, dtype=float)) <= 2 or len({tuple(p) for p in pts}) < 4:
             continue
         P = [g.Point(np.array(p, dtype=float)) for p in pts]
